@@ -3,7 +3,7 @@ From Coq Require Import List ZArith NArith Bool.
 Import ListNotations.
 From GS Require Import Num EventLoop Kernel Sim.
 From GS Require Import NumZ ExampleKit.
-From GS.Proofs Require Import Aux SimP SimP3 SimP5.
+From GS.Proofs Require Import Aux SimP SimP3 SimP5 KernelP2 QueueRel NonInterf NonInterfRun.
 
 Section C13.
 Context {F : Type} (A : ArithOps F) {PS : Type} (cfg : scfg F)
@@ -74,6 +74,32 @@ Proof. apply owned_event_is_invisible. Qed.
 
 End C13.
 
+(** RUN LEVEL.  Two runs of one scenario that differ only in what node [x] asks for -- in both of them [x]
+    issues node-scoped requests only (timers, cancels, targets, speeds, its range, its own flag), and every
+    other node runs the same protocol function in both.  Then what the other nodes observe -- every callback
+    with its node, time and payload / position, and the outcome of every request they make, in order -- is
+    IDENTICAL in the two runs, from initialisation through the whole main loop (any duration; any fuel that lets
+    both loops finish).  Not covered: the finish phase, whose time is the global clock (known finding
+    finish-time-global-clock); simulations with an assertion handler or an iteration limit (both look at
+    ALL executed events, the silent node's included -- excluded by hypothesis). *)
+Theorem C13_run_level_noninterference :
+  forall (F : Type) (A : ArithOps F), OrderLaws A -> forall (PS : Type) (cfg : scfg F) (x : nat)
+         (react1 react2 : nat -> PS -> F -> cb F -> PS * list (action F)),
+    (forall y, y <> x -> forall ps t c, react1 y ps t c = react2 y ps t c) ->
+    silent react1 x -> silent react2 x ->
+    no_assert (c_handlers cfg) ->
+    forall (c : kcfg F), k_maxit c = None ->
+    forall (ps0 : nat -> PS) (f1 f2 : nat) s1' it1 s2' it2,
+    let s0 := fst (sim_start A cfg ps0) in
+    k_loop A (sim_hooks A cfg react1) c f1 (fst (k_initialize A (sim_hooks A cfg react1) s0)) = (s1', it1, LDone) ->
+    k_loop A (sim_hooks A cfg react2) c f2 (fst (k_initialize A (sim_hooks A cfg react2) s0)) = (s2', it2, LDone) ->
+    vis x (snd (k_initialize A (sim_hooks A cfg react1) s0) ++ it1) =
+    vis x (snd (k_initialize A (sim_hooks A cfg react2) s0) ++ it2).
+Proof.
+  intros F A OL PS cfg x react1 react2 Hsame S1 S2 Hna c Hmax ps0 f1 f2 s1' it1 s2' it2.
+  exact (run_noninterference A OL cfg x react1 react2 Hsame S1 S2 Hna c Hmax ps0 f1 f2 s1' it1 s2' it2).
+Qed.
+
 (** Non-vacuity: three nodes are numbered 0, 1, 2 in the order they were added; each runs its own callbacks. *)
 Definition ex13 (n : nat) (ps : unit) (now : Z) (c : cb Z) : unit * list (action Z) := (tt, []).
 Example C13_example :
@@ -81,9 +107,42 @@ Example C13_example :
   [TCb 0 0%Z CbInit; TCb 1 0%Z CbInit; TCb 2 0%Z CbInit; TCb 0 0%Z CbFinish; TCb 1 0%Z CbFinish; TCb 2 0%Z CbFinish].
 Proof. vm_compute. reflexivity. Qed.
 
+(** Non-vacuity of the run-level theorem (integers): node 0 is silent -- with its requests (a timer, a goto, a
+    speed, a cancel, a range) the run has 62 trace items, without them 54; node 1 observes the same twelve
+    things in both. *)
+Definition cfg13 : scfg Z := cfgx [HTimer; HComm; HMob] 2 [(0, 0, 0)%Z; (1, 0, 0)%Z] 10%Z 0%Z 0%Z 1%Z 1%Z [] [].
+Definition other13 (c : cb Z) : unit * list (action Z) :=
+  match c with
+  | CbInit => (tt, [ASetTimer 0 2%Z; ASetTimer 1 3%Z; ASend 7 (Some 0)])
+  | CbTimer _ => (tt, [ABroadcast 9])
+  | _ => (tt, [])
+  end.
+Definition with13 (n : nat) (ps : unit) (now : Z) (c : cb Z) : unit * list (action Z) :=
+  match n with
+  | O => match c with
+         | CbInit => (tt, [ASetTimer 0 2%Z; AGoto (5, 0, 0)%Z; ASetSpeed 1%Z])
+         | CbTimer _ => (tt, [ACancel 1; ASetRange 3%Z])
+         | _ => (tt, [])
+         end
+  | _ => other13 c
+  end.
+Definition without13 (n : nat) (ps : unit) (now : Z) (c : cb Z) : unit * list (action Z) :=
+  match n with O => (tt, []) | _ => other13 c end.
+Definition run13 react :=
+  let s0 := fst (sim_start Z_ops cfg13 (fun _ => tt)) in
+  let '(s1, i1) := k_initialize Z_ops (sim_hooks Z_ops cfg13 react) s0 in
+  let '(s2, i2, st) := k_loop Z_ops (sim_hooks Z_ops cfg13 react) (mkCfg (Some 4%Z) None) 100 s1 in
+  (vis 0 (i1 ++ i2), st, length (i1 ++ i2)).
+Example C13_run_level_example :
+  fst (fst (run13 with13)) = fst (fst (run13 without13)) /\
+  snd (fst (run13 with13)) = LDone /\ snd (fst (run13 without13)) = LDone /\
+  snd (run13 with13) = 62 /\ snd (run13 without13) = 54 /\ length (fst (fst (run13 with13))) = 12.
+Proof. vm_compute. repeat split. Qed.
+
 Print Assumptions C13_identities.
 Print Assumptions C13_callback_owner.
 Print Assumptions C13_node_scoped_frame.
 Print Assumptions C13_timer_event_owner.
 Print Assumptions C13_movement_is_per_node.
 Print Assumptions C13_silent_node_events_invisible.
+Print Assumptions C13_run_level_noninterference.
